@@ -426,6 +426,35 @@ def CC():
         return None
 
 
+def DD():
+    """deleting a parametrised space leaves its ItemSpaces alive; renaming a base keeps instances built from it"""
+    out = []
+    m = _reset()
+    A_ = m.new_space("A", formula="lambda p: None")
+    A_.new_cells("c", formula="lambda x: p + x")
+    inst = A_[1]
+    cc = inst.c
+    cc(1)
+    del m.A
+    for what, fn in (("instance handle", lambda: inst.cells), ("dynamic cells handle", lambda: cc(2))):
+        try:
+            fn()
+            out.append("%s still answers after `del model.A`" % what)
+        except Exception:     # noqa
+            pass
+    m = _reset()
+    B_ = m.new_space("B")
+    B_.new_cells("c", formula="lambda x: x + 10")
+    PB = m.new_space("PB", formula="lambda p: {'base': _model.B}")
+    PB[1].c(0)
+    B_.rename("B2")
+    try:
+        out.append("PB[1].c(0) still returns %r after renaming its base B" % PB[1].c(0))
+    except Exception:     # noqa
+        pass
+    return "; ".join(out) or None
+
+
 # ------------------------------------------------------------------ C15
 def M():
     """export: comprehension following a nested class scope"""
@@ -543,7 +572,7 @@ def R():
     return None
 
 
-ALL = [A, F, G, U, I, J, K, L, T, Z, B, D, E, a, b, c, H, W, X, V, Y, AA, BB, CC, M, N, O, P, Q, R]
+ALL = [A, F, G, U, I, J, K, L, T, Z, B, D, E, a, b, c, H, W, X, V, Y, AA, BB, CC, DD, M, N, O, P, Q, R]
 
 
 if __name__ == "__main__":
